@@ -77,6 +77,42 @@ def run_h1(h1, scen, wd, maxruns, sd, nshards=NCPU, flavour="dbg"):
     return files, execs, capped
 
 
+def _h2_worker(args):
+    import h2
+    scens, ninja, vcmd, maxruns, tp = args
+    n = 0
+    with open(tp, "w") as f:
+        for sc in scens:
+            for evs in h2.explore(sc, ninja, vcmd, maxruns):
+                n += 1
+                for e in evs:
+                    if e["e"] == "Exit":
+                        e = {k: v for k, v in e.items() if k != "stdout"}
+                    f.write(json.dumps(e) + "\n")
+    return n
+
+
+def run_h2(scen, wd, maxruns, nproc=12):
+    """Runs scenarios on the real ninja binary (harness H2).  Returns (files, executions)."""
+    import multiprocessing
+    bins = nbuild.build("dbg", ["ninja", "verif_cmd"])
+    nproc = max(1, min(nproc, len(scen)))
+    jobs = []
+    files = []
+    for k in range(nproc):
+        sp = os.path.join(wd, "h2scen.%d.ndjson" % k)
+        part = scen[k::nproc]
+        with open(sp, "w") as f:
+            for s in part:
+                f.write(json.dumps(s) + "\n")
+        tp = os.path.join(wd, "h2trace.%d.ndjson" % k)
+        jobs.append((part, bins["ninja"], bins["verif_cmd"], maxruns, tp))
+        files.append((sp, tp))
+    with multiprocessing.Pool(nproc) as pool:
+        counts = pool.map(_h2_worker, jobs)
+    return files, sum(counts)
+
+
 def validate(files, wd, spec="RefTrace"):
     def go(pair):
         sp, tp = pair
@@ -119,7 +155,7 @@ def summarize_event(ev):
     return json.dumps(keep)[:300]
 
 
-def engine_check(pid, fams, tier_, maxruns, level_note="", props=None, extra_cov=None, level="model_checking"):
+def engine_check(pid, fams, tier_, maxruns, level_note="", props=None, extra_cov=None, level="model_checking", h2=None):
     """Runs the pipeline and reports for property pid.  Returns exit code."""
     t0 = time.time()
     sd = seed()
@@ -132,6 +168,18 @@ def engine_check(pid, fams, tier_, maxruns, level_note="", props=None, extra_cov
     wd = scratch(pid)
     try:
         files, execs, capped = run_h1(bins["h1"], scen, wd, maxruns, sd)
+        h2execs = 0
+        if h2:
+            scen2 = load_scenarios(h2["fams"], sd)
+            if h2.get("limit") and len(scen2) > h2["limit"]:
+                import random
+                random.Random(sd).shuffle(scen2)
+                scen2 = scen2[:h2["limit"]]
+            for s2 in scen2:
+                s2["id"] = "h2:" + s2["id"]
+                by_id[s2["id"]] = s2
+            files2, h2execs = run_h2(scen2, wd, h2.get("maxruns", 4))
+            files = files + files2
         results = validate(files, wd)
         known = {k["id"]: k for k in load_known_findings() if k.get("status") == "open" and pid in k.get("properties", [])}
         found, known_hits = [], {}
@@ -176,7 +224,7 @@ def engine_check(pid, fams, tier_, maxruns, level_note="", props=None, extra_cov
             "distinct_nontrivial": stats["nontrivial"],
             "rule": "scenario = graph x history x config from spec/Families.tla (TLC export, seed-selected); every completion order "
                     "by DFS up to maxruns per scenario; counted non-trivial = invocations in which at least one command started",
-            "scenarios": len(scen), "executions": execs, "executions_capped_scenarios": capped,
+            "scenarios": len(scen), "executions": execs, "real_binary_executions": h2execs, "executions_capped_scenarios": capped,
             "invocations": stats["invokes"], "command_starts": stats["starts"], "trace_stats": dict(stats),
             "known_finding_hits": {k: n for k, (w, n) in known_hits.items()},
             "families": [{k: v for k, v in f.items() if k != "mut"} for f in fams],
